@@ -184,6 +184,8 @@ def api_fold(setting_prefs, t):
 def build(run):
     run.outside += ["the scanning / trimming / merging control flow of merge_number_blocks (DOM code)", "context heuristics (final punctuation, chemistry)",
                     "equality of speech/braille for split vs unsplit input (rule interpreter)"]
+    crate_g, lemma_g = guard_lemma(run)
+    run.kani(crate_g, [lemma_g], timeout=600)
     c = slicer.Source.get("src/canonicalize.rs")
     prefs = slicer.Source.get("src/prefs.rs")
     new_fn = c.find("impl CanonicalizeContextPatterns", "fn new")
@@ -330,3 +332,64 @@ def _atoms(e):
                 yield y
     else:
         yield e
+
+
+# ======================================================================================================================
+# D-C16-c: the fence guard at the end of is_likely_a_number: a comma-grouped candidate stays a list only between two fences
+GUARD_HARNESS = r"""
+fn is_fence(mo: Element) -> bool { let t = as_text(mo); t == "|" || t == "||" }                 // stand-in for the operator dictionary: the bars are the fences of the model's texts
+#[allow(unused_variables)]
+fn fence_guard<'a>(mrow: Element<'a>, children: &[ChildOfElement<'a>]) -> bool {
+    let end = children.len();
+    GUARD_SEGMENT
+}
+fn side(row: Element<'static>, present: bool, k: usize) -> (bool, bool) {
+    // -> (is present, is a fence mo); k: 0 = <mo>|</mo> (fence), 1 = <mo>+</mo>, 2 = <mi>x</mi>
+    if !present { return (false, false); }
+    let e = dom::new_node(if k == 2 { 0 } else { 7 }); dom::set_leaf(e, if k == 0 { 11 } else if k == 1 { 3 } else { 4 });
+    row.append_child_id(e.id);
+    (true, k == 0)
+}
+HARNESS(fence_guard_needs_both_fences, 16) {
+    let outer = dom::new_node(5);
+    let spans_all = sym::bool();                     // the candidate is all of its mrow: the fences are siblings of the mrow
+    let row = if spans_all { dom::new_node(5) } else { outer };
+    let (lp, lf) = side(outer, sym::bool(), sym::below(3));
+    if spans_all { outer.append_child_id(row.id); }
+    let n1 = dom::new_node(6); dom::set_leaf(n1, 5); row.append_child_id(n1.id);
+    let comma = dom::new_node(7); dom::set_leaf(comma, 3); row.append_child_id(comma.id);
+    let n2 = dom::new_node(6); dom::set_leaf(n2, 5); row.append_child_id(n2.id);
+    let (rp, rf) = side(outer, sym::bool(), sym::below(3));
+    let mut cand: Vec<ChildOfElement> = Vec::new();
+    cand.push(ChildOfElement::Element(n1)); cand.push(ChildOfElement::Element(comma)); cand.push(ChildOfElement::Element(n2));
+    let is_number = fence_guard(row, &cand);
+    cover!(lp && lf && rp && rf, "candidate between two fences reachable");
+    cover!(lp && lf && rp && !rf && !spans_all, "opening fence, then an operator after the candidate reachable");
+    assert!(is_number == !(lp && lf && rp && rf), "a comma-grouped number is left unfolded (or a fenced list is folded): the guard must fire exactly when BOTH neighbours are fences");
+}
+"""
+
+
+def api_guard(vals=None, out=None):
+    import re
+    res = mcprobe([("mathml", "<math><mo>(</mo><mn>1</mn><mo>,</mo><mn>234</mn><mo>+</mo><mn>5</mn><mo>)</mo></math>"),
+                   ("mathml", "<math><mo>(</mo><mn>451</mn><mo>,</mo><mn>231</mn><mo>)</mo></math>")])
+    bad = res[0][0] != "OK" or ">1,234<" not in res[0][1] or res[1][0] != "OK" or ">451,231<" in res[1][1]
+    return bad, {"script": "set_mathml('(1,234+5)') must fold 1,234; set_mathml('(451,231)') must stay a list", "results": res}
+
+
+def guard_lemma(run):
+    import kani_run, prelude
+    c = slicer.Source.get("src/canonicalize.rs")
+    likely = c.find("fn is_likely_a_number")
+    first = c.find_stmt("let preceding_siblings = as_element ( children [ 0 ] ) . preceding_siblings ( )", within=likely)
+    seg = slicer.Span(c, first.start, likely.end - 1, "is_likely_a_number::fence_guard")
+    run.uses(seg)
+    crate = kani_run.Crate("c16guard", prelude.MINIDOM + GUARD_HARNESS.replace("GUARD_SEGMENT", seg.text))
+    run.bound("D-C16-c", "the statements of is_likely_a_number after the comma test (fence guard) on the model DOM: candidate n , n with an optional left and right neighbour each a fence mo, a non-fence mo or an mi; "
+              "neighbours as siblings of the candidate or of its mrow")
+    run.assume("model DOM (MINIDOM); is_fence replaced by 'the text is a vertical bar' (operator dictionary not encoded here: C03)")
+    return crate, dict(id="D-C16-c.fence_guard_needs_both_fences", harness="fence_guard_needs_both_fences", api=lambda v, o: api_guard(),
+                       role=lambda v, o: "fence-guard-wrong-neighbour",
+                       covers=["candidate between two fences reachable", "opening fence, then an operator after the candidate reachable"],
+                       claim="the guard answers 'not a number' exactly when the candidate has a fence on both sides")
